@@ -37,6 +37,25 @@ func warmLevel(hist, lvl, max int) int {
 	return lvl
 }
 
+// flipDomain moves a ciphertext into the domain the parameters do NOT use by default (coefficient domain under
+// NTT-by-default parameters and conversely) and flags it accordingly: the same ciphertext of the same message.
+func flipDomain(params rlwe.Parameters, ct *rlwe.Ciphertext) {
+	r := params.RingQ().AtLevel(ct.Level())
+	for i := range ct.Value {
+		if ct.IsNTT {
+			r.INTT(ct.Value[i], ct.Value[i])
+		} else {
+			r.NTT(ct.Value[i], ct.Value[i])
+		}
+	}
+	ct.IsNTT = !ct.IsNTT
+}
+
+// coverDomain records the cell of (ciphertext domain) x (parameters' default domain).
+func coverDomain(c *engine.Chooser, params rlwe.Parameters, ct *rlwe.Ciphertext) {
+	c.Cover("domain", fmt.Sprintf("ct-ntt=%v/params-ntt=%v", ct.IsNTT, params.NTTFlag()))
+}
+
 func isZero(v []*big.Int) bool { return ref.InfNorm(v).Sign() == 0 }
 
 // encryptUnder returns a fresh secret-key encryption of a uniform plaintext (noise: one error, sup B).
@@ -66,6 +85,10 @@ func ksLeaf(c *engine.Chooser, name string, k cfg) {
 	}
 	lvl := k.lin
 	ct, want := encryptUnder(params, In.Ideal, lvl, name, "pt")
+	if k.ctFlip {
+		flipDomain(params, ct)
+	}
+	coverDomain(c, params, ct)
 	flood := mp.Flood(params, k.sigma)
 	_, sup := mp.KSNoise(params, flood)
 
@@ -86,6 +109,9 @@ func ksLeaf(c *engine.Chooser, name string, k cfg) {
 				a, b = b, a
 			}
 			ctw, _ := encryptUnder(params, In.Ideal, lw, name, "warm-up", hist)
+			if (hist == 2) != k.ctFlip { // hist 2: the warm-up ciphertext is in the other domain than the judged one
+				flipDomain(params, ctw)
+			}
 			sh := protos[i].AllocateShare(lw)
 			protos[i].GenShare(a, b, ctw, &sh)
 		}
@@ -146,6 +172,10 @@ func pcksLeaf(c *engine.Chooser, name string, k cfg) {
 	skOut, pkOut := rlwe.NewKeyGenerator(params).GenKeyPairNew()
 	lvl := k.lin
 	ct, want := encryptUnder(params, In.Ideal, lvl, name, "pt")
+	if k.ctFlip {
+		flipDomain(params, ct)
+	}
+	coverDomain(c, params, ct)
 	flood := mp.Flood(params, k.sigma)
 	floodSup := mp.XeSup(flood)
 	// per share: an encryption of zero under pkOut (u*e_pk + e0 + e1*s_out, rounding of the division by P when
@@ -178,6 +208,9 @@ func pcksLeaf(c *engine.Chooser, name string, k cfg) {
 				pkw = pkOther
 			}
 			ctw, _ := encryptUnder(params, In.Ideal, lw, name, "warm-up", hist)
+			if (hist == 2) != k.ctFlip {
+				flipDomain(params, ctw)
+			}
 			sh := protos[i].AllocateShare(lw)
 			protos[i].GenShare(In.SK[i], pkw, ctw, &sh)
 		}
